@@ -151,8 +151,9 @@ var Profiles = map[string]func() Profile{
 		p.Name = "misuse"
 		p.W = wts(int(KNewEntity), 14, int(KNewBatch), 3, int(KAdd), 10, int(KRemove), 8, int(KExchange), 5, int(KWrite), 3,
 			int(KSetRel), 4, int(KCopy), 3, int(KRemoveEntity), 12, int(KRemoveEntities), 2, int(KMisuse), 30,
-			int(KOpenQuery), 3, int(KStepQuery), 2, int(KCloseQuery), 3, int(KReset), 1)
+			int(KOpenQuery), 3, int(KStepQuery), 2, int(KCloseQuery), 3, int(KReset), 1, int(KRegFilter), 3, int(KUnregFilter), 2)
 		p.QuerySlots = 3
+		p.FilterSlots = 3
 		p.MaxAlive = 30
 		p.RelPct = 60
 		return p
